@@ -126,14 +126,15 @@ N_authorization == <<97, 117, 116, 104, 111, 114, 105, 122, 97, 116, 105, 111, 1
 N_cookie == <<99, 111, 111, 107, 105, 101>>
 N_set_cookie == <<115, 101, 116, 45, 99, 111, 111, 107, 105, 101>>
 
-(* "requests-auth": the credential is put on the request by a `requests` auth object (schema.auth.set_from_requests, auth= at call
+(* "schema-userinfo" / "schema-query": the credential is in the URL the SCHEMA is loaded from (userinfo / a query parameter `name`);
+   "requests-auth": the credential is put on the request by a `requests` auth object (schema.auth.set_from_requests, auth= at call
    time) while the request is prepared, under the header `name` *)
 Routes == {"user-header", "auth-basic", "gen-header", "gen-query", "gen-cookie", "url-userinfo", "resp-set-cookie", "resp-header",
-           "requests-auth"}
+           "requests-auth", "schema-userinfo", "schema-query"}
 Sinks == {"console", "curl", "junit", "vcr", "har"}
 (* is the carrier of the route credential-bearing under cfg?  name = the header / parameter / cookie name the secret travels under *)
 SensCarrier(route, name, cfg) ==
-    CASE route = "url-userinfo"    -> TRUE
+    CASE route \in {"url-userinfo", "schema-userinfo"} -> TRUE
       [] route = "auth-basic"      -> Sensitive(N_authorization, cfg)
       [] route = "gen-cookie"      -> Sensitive(N_cookie, cfg) \/ Sensitive(name, cfg)
       [] route = "resp-set-cookie" -> Sensitive(N_set_cookie, cfg) \/ Sensitive(name, cfg)
@@ -148,6 +149,7 @@ ReproOmits == {<<117, 115, 101, 114, 45, 97, 103, 101, 110, 116>>, <<97, 99, 99,
 MustCarryBy(route, sink, omitted) ==
     IF route \in {"resp-set-cookie", "resp-header"} THEN sink \in {"vcr", "har"}
     ELSE IF route = "url-userinfo" THEN TRUE
+    ELSE IF route \in {"schema-userinfo", "schema-query"} THEN sink = "console"      \* the "Loaded specification from ..." line
     ELSE IF route = "requests-auth" THEN sink = "curl" /\ ~omitted   \* Python API: Case.as_curl_command / the failure report's curl sample
     ELSE IF route \in {"user-header", "gen-header"} /\ omitted THEN sink \in {"vcr", "har"}
     ELSE sink \in {"curl", "junit", "vcr", "har"}
@@ -165,11 +167,12 @@ Expected(route, sink, name, sanitize, cfg) == ExpectedBy(route, sink, sanitize, 
 \* extra key: customer_ref, extra marker: trace
 ExtraKeys == {<<99, 117, 115, 116, 111, 109, 101, 114, 95, 114, 101, 102>>}
 ExtraMarkers == {<<116, 114, 97, 99, 101>>}
-ConfigOps == {"configure-keys", "configure-markers", "extend-keys", "extend-markers", "reset"}
+ConfigOps == {"configure-keys", "configure-markers", "extend-keys", "extend-markers", "configure-replacement", "reset"}
 ApplyOp(cfg, op) == CASE op = "configure-keys"    -> [cfg EXCEPT !.keys = CustomKeys]
                       [] op = "configure-markers" -> [cfg EXCEPT !.markers = CustomMarkers]
                       [] op = "extend-keys"       -> [cfg EXCEPT !.keys = @ \cup ExtraKeys]
                       [] op = "extend-markers"    -> [cfg EXCEPT !.markers = @ \cup ExtraMarkers]
+                      [] op = "configure-replacement" -> cfg      \* another redaction marker: what is sensitive does not change
                       [] OTHER                    -> Cfg("default")
 (* configuration in force after the first k steps of history h (steps: [kind "C"/"S", op, name]) *)
 CfgAt(h, k) == LET f[j \in 0..k] == IF j = 0 THEN Cfg("default")
